@@ -223,7 +223,9 @@ def make(cls_name, fam, own_array=False, **kw):
     kw.setdefault('presentValue', fam['default']())
     kw.setdefault('relinquishDefault', fam['default']())
     try:
-        return cls(objectIdentifier=(cls.objectType, 1), objectName='c17', **kw)
+        kw.setdefault('objectIdentifier', (cls.objectType, 1))
+        kw.setdefault('objectName', 'c17')
+        return cls(**kw)
     except Exception as e:
         # not one command can be given to an object that cannot be made
         raise Violation("cannot-construct", cls=cls_name, exc=type(e).__name__, msg=str(e)[:100])
@@ -379,6 +381,36 @@ def long_seq(d, cls, length, seeds):
         state = step_and_check(obj, ref, fam, state, step, route, priority, value)
         if step % 10 == 0:
             wire_check(obj, ref, fam, step)
+    d.reach()
+
+
+# ------------------------------------------------------------------ two objects of one class
+@meta(bounds="TWO objects of the same commandable class in one process (each with the array the library builds itself): one "
+             "command on the first (priority symbolic over absent/1/8/16, first or second value or relinquish), then the second "
+             "is constructed - it starts with sixteen empty slots and its default - , one command on the second, then a "
+             "second command on the first: after every step both objects are compared in full with their own reference",
+      outside="more than two objects; objects of different classes (independent by construction)",
+      stubs=["virtual clock (World), no time passes"], assumes=[])
+def two_objects(d, cls):
+    cls = pick_class(d, cls)
+    fam = FAMILIES[FAMILY_OF[cls]]
+    World()
+    with d.untraced():
+        a = make(cls, fam, own_array=False)
+    ra = RefCommandable(fam['default']())
+    sa = observe(a, fam)
+    compare(sa, expect(ra, fam), 0, "construction of the first")
+    sa = step_and_check(a, ra, fam, sa, 1, 'pv', d.pick([None, 1, 8, 16], 'priority_a1'), draw_value(d, fam, '01-'))
+    with d.untraced():
+        b = make(cls, fam, own_array=False, objectIdentifier=(REGISTERED[cls].objectType, 2), objectName='c17b')
+    rb = RefCommandable(fam['default']())
+    sb = observe(b, fam)
+    compare(sb, expect(rb, fam), 2, "construction of the second")
+    compare(observe(a, fam), expect(ra, fam), 2, "construction of the second (first object)")
+    sb = step_and_check(b, rb, fam, sb, 3, 'pv', d.pick([None, 1, 8, 16], 'priority_b'), draw_value(d, fam, '01-'))
+    compare(observe(a, fam), expect(ra, fam), 3, "command on the second (first object)")
+    sa = step_and_check(a, ra, fam, observe(a, fam), 4, 'pv', d.pick([None, 1, 8, 16], 'priority_a2'), draw_value(d, fam, '01-'))
+    compare(observe(b, fam), expect(rb, fam), 4, "command on the first (second object)")
     d.reach()
 
 
@@ -780,6 +812,8 @@ def instances(tier):
     q = tier == "quick"
     for cls in (['AnalogValueCmdObject', 'BinaryValueCmdObject'] if q else list(WIRE_FAMILIES)):
         out.append(Inst(prio_wire, dict(cls=cls, n=2, full=not q), budget=150 if q else 900, path_timeout=120))
+    for cls in (['AnalogValueCmdObject', 'BinaryOutputCmdObject'] if q else sorted(REGISTERED)):
+        out.append(Inst(two_objects, dict(cls=cls), budget=150 if q else 600, path_timeout=120))
     out.append(Inst(prio_wire, dict(cls='AnalogValueCmdObject', n=2, full=not q, own_array=False), budget=300 if q else 900,
                     path_timeout=120, label="AnalogValueCmdObject,default-array"))
     if not q:
